@@ -1,23 +1,23 @@
 SPECIFICATION Spec
 CONSTANTS
-  Confs <- ListShapes
-  InitRegs <- ListRegs2
+  Confs <- RefConfs
+  InitRegs <- RefRegs
   ScopeNames = {"a", "b"}
   MaxScopeDepth = 2
   MaxStack = 3
-  BindVals <- BV12
-  MaxBindings = 5
+  BindVals <- RefBindVals
+  MaxBindings = 6
   Enabled = {"Bind", "EnterScope", "ExitScope", "Call"}
-  NameOrder <- Names6
+  NameOrder <- NamesRefs
   HookUniverse = {}
-  BindApis <- AllApis
+  BindApis = {"tuple", "text"}
   FreshConfs = {}
-  ConstNames = {}
-  BindFilter <- AnyBind
+  BindFilter <- RefFilter
   ConstVals = {}
   QuerySpellings = {}
-  CallMaxExtra = 1
-  CallExtraKw = {"z"}
+  ConstNames = {}
+  CallMaxExtra = 0
+  CallExtraKw = {}
   CallsWithReq = FALSE
   DevKwEval = FALSE
 CONSTRAINT ExportConstraint
